@@ -1,5 +1,6 @@
 import Driver.Common
 import GeosModel.Model.Interrupt.Proto
+import GeosModel.Model.Interrupt.Unwind
 /-! Driver for C14.
 * `proto`: replays a call script (`S …`) on the model of `geos::util::Interrupt` (`runScript`).
 * `ops`  : for an observed operation (`O op seed size N mode k`) prints what the protocol model predicts for
@@ -80,6 +81,39 @@ def ops (line : String) : String :=
     | _, _, _ => "bad-line"
   | _ => "bad-line"
 
+/-! `unwind`: which exception leaves `ValidatingNoder::computeNodes` (`W inner output nl P j`).  An exception of the wrapped noder
+is raised outside the `try` of `validate` (no frame); the validation raises `InterruptedException` when the callback requests
+at one of its P polls, otherwise `TopologyException` when the output has a crossing; both unwind through `validateFrame`. -/
+def excName : Exc → String
+  | .interrupted => "interrupted" | .topology => "topology" | .illegalArgument => "illegalarg" | .geosOther => "geos"
+  | .runtimeOther => "runtime" | .logic => "logic" | .stdOther => "std" | .nonStd => "unknown"
+
+def parseExc : String → Option Exc
+  | "interrupted" => some .interrupted | "topology" => some .topology | "illegalarg" => some .illegalArgument
+  | "runtime" => some .runtimeOther | "logic" => some .logic | _ => none
+
+def showFlow : Flow → String
+  | .raised e => excName e ++ " msg=1"       -- `throw;` re-raises the same object: class and message unchanged
+  | .absorbed => "none"
+
+def unwindLine (line : String) : String :=
+  match Driver.tokens line with
+  | ["W", inner, output, _nl, p, j] =>
+    match p.toNat?, j.toNat? with
+    | some P, some j =>
+      if inner != "none" then
+        match parseExc inner with
+        | some e => showFlow (unwind [] e)
+        | none => "bad-line"
+      else
+        -- the validation is an operation with P polls whose result is "valid" / a TopologyException
+        let (_, o) := run ⟨false, some (requestAt j)⟩ (⟨P, ()⟩ : Op Unit)
+        match o with
+        | .interrupted _ => showFlow (unwind [validateFrame] .interrupted)
+        | .done _ => if output == "crossing" then showFlow (unwind [validateFrame] .topology) else "none"
+    | _, _ => "bad-line"
+  | _ => "bad-line"
+
 end Driver.C14
 
 def main (args : List String) : IO UInt32 := do
@@ -88,4 +122,5 @@ def main (args : List String) : IO UInt32 := do
   match args with
   | ["proto"] => Driver.loop stdin stdout Driver.C14.proto; return 0
   | ["ops"] => Driver.loop stdin stdout Driver.C14.ops; return 0
-  | _ => IO.eprintln "usage: drv_c14 proto|ops"; return 2
+  | ["unwind"] => Driver.loop stdin stdout Driver.C14.unwindLine; return 0
+  | _ => IO.eprintln "usage: drv_c14 proto|ops|unwind"; return 2
